@@ -523,7 +523,10 @@ fn engine_readback(pos: Pos, name: &str, sql: &str, sigbase: &str, obs: &mut Obs
     if ["t", "c", "d", "b", "t2", "c2"].iter().any(|f| name.eq_ignore_ascii_case(f)) || name.to_ascii_lowercase().starts_with("sqlite_") {
         return Ok(());
     }
-    let db = Db::memory();
+    crate::sqlite::scratch(|db| engine_readback_on(db, pos, name, sql, sigbase, obs))
+}
+
+fn engine_readback_on(db: &Db, pos: Pos, name: &str, sql: &str, sigbase: &str, obs: &mut Obs) -> R {
     let text = |c: &Cell| match c {
         Cell::Text(s) => Some(s.clone()),
         _ => None,
